@@ -267,6 +267,8 @@ def check_render(scfg, flow=None):
         if got != want:
             raise Inconclusive("dot_reader_disagrees_with_graphviz_call_log", (got, want))
     stats = compare(dg, scfg)
+    ctx.hit("C17.label_parts", stats["labels_checked"])
+    ctx.hit("C17.edges_compared", stats["edges"] + stats["dashed"])
     if flow is not None:
         try:
             r = ByteFlowRenderer()
@@ -277,4 +279,6 @@ def check_render(scfg, flow=None):
         dg2 = parse(src2)
         s2 = compare(dg2, flow.scfg, byteflow=True, bcmap=r.bcmap)
         stats["byteflow_labels_checked"] = s2["labels_checked"]
+        ctx.hit("C17.byteflow_renderer_checked")
+        ctx.hit("C17.byteflow_label_parts", s2["labels_checked"])
     return stats
